@@ -1,0 +1,177 @@
+//! Verification hooks.
+//!
+//! This module only exists in builds with `--cfg routinator_verif`. It is a
+//! registry for a process-global handler that a deterministic simulation
+//! harness can install. Without an installed handler every hook is a no-op
+//! (a single relaxed atomic load).
+//!
+//! The module never draws randomness and never reads a clock.
+
+use std::sync::{Arc, RwLock};
+use std::sync::atomic::{AtomicBool, AtomicUsize, Ordering};
+use crate::error::RunFailed;
+
+/// A simulated HTTP request as seen by the RRDP collector.
+#[derive(Clone, Debug)]
+pub struct HttpRequest {
+    /// The full request URI.
+    pub uri: String,
+
+    /// The value of the If-None-Match header if sent.
+    pub etag: Option<Vec<u8>>,
+
+    /// The value of the If-Modified-Since header if sent.
+    pub if_modified_since: Option<String>,
+}
+
+/// The type of a simulated HTTP response.
+pub type HttpResponse = reqwest::blocking::Response;
+
+/// The interface of the simulation harness.
+pub trait Handler: Send + Sync {
+    /// A scheduling point. Called at places interesting for interleavings.
+    fn point(&self, _site: &'static str) { }
+
+    /// A point at which the process could be killed.
+    ///
+    /// Called between the steps of multi-step file system operations.
+    fn kill_point(&self, _site: &'static str) { }
+
+    /// Should a usually succeeding operation fail at this site?
+    fn buggify(&self, _site: &'static str) -> bool { false }
+
+    /// Produce the response to an HTTP request by the RRDP collector.
+    ///
+    /// If this returns `None`, the real HTTP client is used.
+    fn http(&self, _req: &HttpRequest) -> Option<HttpResponse> { None }
+
+    /// The forced outcome of the next validation run if any.
+    fn run_outcome(&self) -> Option<RunFailed> { None }
+
+    /// A permutation to be applied to a slice of length `len`.
+    ///
+    /// Element `i` of the result is the index of the element that should
+    /// end up at position `i`.
+    fn permute(&self, _site: &'static str, _len: usize) -> Option<Vec<usize>> {
+        None
+    }
+}
+
+static ACTIVE: AtomicBool = AtomicBool::new(false);
+static HANDLER: RwLock<Option<Arc<dyn Handler>>> = RwLock::new(None);
+
+/// Installs a handler. Replaces any previously installed handler.
+pub fn install(handler: Arc<dyn Handler>) {
+    *HANDLER.write().unwrap() = Some(handler);
+    ACTIVE.store(true, Ordering::SeqCst);
+}
+
+/// Removes the handler.
+pub fn uninstall() {
+    ACTIVE.store(false, Ordering::SeqCst);
+    *HANDLER.write().unwrap() = None;
+}
+
+fn handler() -> Option<Arc<dyn Handler>> {
+    if !ACTIVE.load(Ordering::Relaxed) {
+        return None
+    }
+    HANDLER.read().unwrap().clone()
+}
+
+/// A scheduling point.
+pub fn point(site: &'static str) {
+    if let Some(handler) = handler() {
+        handler.point(site)
+    }
+}
+
+/// A potential kill point.
+pub fn kill_point(site: &'static str) {
+    if let Some(handler) = handler() {
+        handler.kill_point(site)
+    }
+}
+
+/// Should the operation at `site` fail?
+pub fn buggify(site: &'static str) -> bool {
+    match handler() {
+        Some(handler) => handler.buggify(site),
+        None => false,
+    }
+}
+
+/// Returns a simulated HTTP response if a transport is installed.
+pub fn http(
+    uri: &str, etag: Option<&[u8]>, if_modified_since: Option<String>,
+) -> Option<HttpResponse> {
+    handler()?.http(&HttpRequest {
+        uri: uri.into(),
+        etag: etag.map(Into::into),
+        if_modified_since
+    })
+}
+
+/// Applies the simulator’s permutation to the slice if there is one.
+pub fn permute<T>(site: &'static str, slice: &mut [T]) {
+    let Some(handler) = handler() else { return };
+    let Some(perm) = handler.permute(site, slice.len()) else { return };
+    if perm.len() != slice.len() {
+        return
+    }
+    // Apply by cycling through swaps on a scratch index list.
+    let mut order: Vec<usize> = (0..slice.len()).collect();
+    for (i, &want) in perm.iter().enumerate() {
+        let Some(pos) = order[i..].iter().position(|&x| x == want) else {
+            return
+        };
+        order.swap(i, i + pos);
+        slice.swap(i, i + pos);
+    }
+}
+
+/// The number of validation runs started so far in this process.
+static RUNS: AtomicUsize = AtomicUsize::new(0);
+
+/// Returns the number of validation runs started in this process.
+pub fn run_count() -> usize {
+    RUNS.load(Ordering::SeqCst)
+}
+
+/// Returns the forced outcome of the validation run starting now, if any.
+///
+/// Without a handler, a script can be supplied to a subprocess through the
+/// environment: `ROUTINATOR_VERIF_RUNS` is a comma-separated list of `ok`,
+/// `retry` and `fatal`, consumed one entry per run (runs beyond the end of
+/// the list are not forced). If `ROUTINATOR_VERIF_RUN_LOG` is set, one line
+/// per started run is appended to that file. If `ROUTINATOR_VERIF_MAX_RUNS`
+/// is set and more runs than that are started, the process exits with
+/// status 97 so that a non-terminating retry loop becomes a finite
+/// observation.
+pub fn run_outcome() -> Option<RunFailed> {
+    let index = RUNS.fetch_add(1, Ordering::SeqCst);
+    if let Some(handler) = handler() {
+        return handler.run_outcome()
+    }
+    let script = std::env::var("ROUTINATOR_VERIF_RUNS").ok()?;
+    if let Ok(path) = std::env::var("ROUTINATOR_VERIF_RUN_LOG") {
+        use std::io::Write;
+        if let Ok(mut file) = std::fs::OpenOptions::new()
+            .create(true).append(true).open(path)
+        {
+            let _ = writeln!(file, "run {index}");
+        }
+    }
+    if let Ok(max) = std::env::var("ROUTINATOR_VERIF_MAX_RUNS") {
+        if let Ok(max) = max.parse::<usize>() {
+            if index >= max {
+                std::process::exit(97)
+            }
+        }
+    }
+    match script.split(',').nth(index).map(str::trim) {
+        Some("retry") => Some(RunFailed::retry()),
+        Some("fatal") => Some(RunFailed::fatal()),
+        _ => None
+    }
+}
